@@ -16,6 +16,7 @@ PAIRS = np.array([[0, 1], [1, 2]], dtype=np.int32)
 TIMES = np.array([[0, 1], [0, 2]], dtype=np.int32)
 ORTHO_LA = ((2.0, 3.0, 4.0), (90.0, 90.0, 90.0))
 SKEW_LA = ((2.5, 3.5, 4.5), (80.0, 100.0, 70.0))
+SKEWS = ((80.0, 100.0, 70.0), (90.0, 90.0, 120.0), (90.0, 100.0, 90.0), (75.0, 90.0, 90.0))     # general; only gamma; only beta; only alpha off 90
 
 
 class _Rec:
@@ -28,9 +29,10 @@ class _Rec:
         return f
 
 
-def dispatch(api: int, o0: bool, o1: bool, o2: bool, opt: bool, periodic: bool, have_cell: bool) -> bool:
+def dispatch(api: int, o0: bool, o1: bool, o2: bool, opt: bool, periodic: bool, have_cell: bool, skew: int = 0) -> bool:
     """
     pre: 0 <= api <= 2
+    pre: 0 <= skew <= 3
     post: __return__
     """
     rec = _Rec()
@@ -41,7 +43,7 @@ def dispatch(api: int, o0: bool, o1: bool, o2: bool, opt: bool, periodic: bool, 
     flags = [bool(o0), bool(o1), bool(o2)]
     if have_cell:
         t.unitcell_lengths = np.array([(ORTHO_LA if o else SKEW_LA)[0] for o in flags])
-        t.unitcell_angles = np.array([(ORTHO_LA if o else SKEW_LA)[1] for o in flags])
+        t.unitcell_angles = np.array([ORTHO_LA[1] if o else SKEWS[skew] for o in flags])
     if api == 0:
         _d.compute_distances(t, PAIRS, periodic=periodic, opt=opt)
     elif api == 1:
